@@ -25,6 +25,8 @@ var (
 	idMainRun   = "(*leanhelix.MainLoop).run"
 	syncMsgType = "leanhelix.blockWithProof"
 	idVoteSel   = "(*services/termincommittee.TermInCommittee).latestViewChangeVote"
+	// armE4: when the worker handles a sync inline in its select (no handler function), the sync entry is that arm
+	armE4 *ssa.BasicBlock
 )
 
 func resolveEntries(p *Prog) {
@@ -159,6 +161,26 @@ func resolveEntries(p *Prog) {
 				break
 			}
 			level = next
+		}
+		armE4 = nil
+		if p.FuncByID[idE4] == nil {
+			// handled inline: the arm of the loop's select that receives the hand-off message
+			for _, sel := range topSelects(run) {
+				idx := 0
+				for _, st := range sel.States {
+					if st.Dir != types.RecvOnly {
+						idx++
+						continue
+					}
+					if ch, ok := st.Chan.Type().Underlying().(*types.Chan); ok && typeShort(ch.Elem()) == syncMsgType {
+						if ab := selectArmBlock(sel, stateIndex(sel, st)); ab != nil {
+							armE4 = ab
+							idE4 = funcID(run)
+						}
+					}
+					idx++
+				}
+			}
 		}
 	}
 	// election callback: the bound method given to RegisterOnElection inside the term package
@@ -301,4 +323,13 @@ func (lb loopBody) stepContinues(ret *ssa.Return) bool {
 	}
 	k, isK := ret.Results[0].(*ssa.Const)
 	return isK && k.Value != nil && k.Value.Kind() == constant.Bool && constant.BoolVal(k.Value) != lb.exitVal
+}
+
+func stateIndex(sel *ssa.Select, st *ssa.SelectState) int {
+	for i, x := range sel.States {
+		if x == st {
+			return i
+		}
+	}
+	return -1
 }
